@@ -309,6 +309,24 @@ func (node *Node) load(ctx context.Context) error {
 		return err
 	}
 
+	// The mempool is not stored. Give it back the unconfirmed txs that are still tracked, or a
+	// double spend of one of them would go unnoticed after a restart.
+	unconfirmed, err := node.txs.GetUnconfirmed(ctx)
+	if err != nil {
+		return err
+	}
+	node.txs.ReleaseUnconfirmed(ctx)
+	for _, txid := range unconfirmed {
+		txState, err := internalStorage.FetchTxState(ctx, node.store, txid)
+		if err != nil {
+			if errors.Cause(err) == storage.ErrNotFound {
+				continue
+			}
+			return errors.Wrap(err, "fetch tx state")
+		}
+		node.memPool.AddTransaction(ctx, txState.Tx, false)
+	}
+
 	node.messageHandlers = handlers.NewTrustedMessageHandlers(ctx, node.config, node.state,
 		node.peers, node.blocks, &node.blockRefeeder, node.txs, node.reorgs, node.txTracker,
 		node.memPool, &node.unconfTxChannel, node.handlers)
